@@ -14,7 +14,7 @@ RULE = ("cells: generic oblique, near-orthogonal, orthogonal (orthorhombic/tetra
         "the box <= 5 (the property's range condition); both modules; non-trivial = non-orthogonal input; distinct = distinct cell")
 ASSUMPTIONS = ["successive minima are computed by exhaustive enumeration of the integer box (harness), greedy by rank",
                "lattice equivalence is decided by searching integer matrices N (entries |n| <= 4) with N'GN = G_result to 1e-8",
-               "the argument reduce_cell hands to a_to_cell (rows = chosen lattice vectors) is recorded by a spy on the module attribute",
+               "the argument reduce_cell hands to a_to_cell (chosen lattice vectors, as rows or as columns) is recorded by a spy on the module attribute",
                "open finding C18-transposed-basis is recognised only when the chosen vectors R pass every check and the returned metric equals R'R"]
 FLOORS = {"post:tools.reduce_cell volume": 150, "post:laue.reduce_cell volume": 150,
           "post:tools.reduce_cell chosen vectors are the shortest non-coplanar lattice vectors": 150,
@@ -118,16 +118,27 @@ def judge(ctx, m, cell, result, R):
     R_ok = None
     if R is not None and R.shape == (3, 3):
         A = oracle.upper_triangular_factor(G)
-        coef = np.linalg.inv(A) @ R.T                      # columns: integer coefficients of the chosen vectors
-        ci = np.rint(coef)
-        bad = []
-        if np.max(np.abs(coef - ci)) > 1e-6:
-            bad.append("chosen vectors are not lattice vectors")
-        elif abs(abs(np.linalg.det(ci)) - 1) > 1e-9:
-            bad.append("chosen vectors have index %g in the lattice" % abs(np.linalg.det(ci)))
-        lens = sorted(np.linalg.norm(R, axis=1))
-        if max(abs(a - b) for a, b in zip(lens, lam5)) > 1e-8 * lam5[2]:
-            bad.append("lengths %s are not the successive minima %s" % ([round(x, 6) for x in lens], [round(x, 6) for x in lam5]))
+
+        def problems(Rv):
+            """Rv: rows = chosen lattice vectors"""
+            coef = np.linalg.inv(A) @ Rv.T                  # columns: integer coefficients of the chosen vectors
+            ci = np.rint(coef)
+            bad = []
+            if np.max(np.abs(coef - ci)) > 1e-6:
+                bad.append("chosen vectors are not lattice vectors")
+            elif abs(abs(np.linalg.det(ci)) - 1) > 1e-9:
+                bad.append("chosen vectors have index %g in the lattice" % abs(np.linalg.det(ci)))
+            lens = sorted(np.linalg.norm(Rv, axis=1))
+            if max(abs(a - b) for a, b in zip(lens, lam5)) > 1e-8 * lam5[2]:
+                bad.append("lengths %s are not the successive minima %s" % ([round(x, 6) for x in lens], [round(x, 6) for x in lam5]))
+            return bad
+        # whether the function stacks its vectors as rows or as columns is its own business: either reading may pass
+        bad = problems(R)
+        if bad and not problems(R.T):
+            bad, R = [], R.T
+            mon.config("a_to_cell argument: vectors are the columns")
+        elif not bad:
+            mon.config("a_to_cell argument: vectors are the rows")
         R_ok = not bad
         mon.check("post:%s.reduce_cell chosen vectors are the shortest non-coplanar lattice vectors" % m, R_ok,
                   observed=None if R_ok else R, detail="; ".join(bad) or None)
